@@ -244,11 +244,6 @@ theorem capG_iff {W : World} {inner : List GId} {b : GraphT} {k : GId} {v : VId}
     · exact CapG.here hn hv ha
     · exact CapG.deeper hn hc h
 
-/-- gids of the graphs nested in a list of graph attributes / nodes -/
-inductive NestedIn : GraphT → GId → Prop
-  | self {b : GraphT} : NestedIn b b.gid
-  | deeper {b c : GraphT} {n : NodeT} {k : GId} : n ∈ b.nodes → c ∈ n.bodies → NestedIn c k → NestedIn b k
-
 mutual
   theorem procN_spec (W : World) (root : GId) (k : GId) (x : VId) :
       ∀ (n : NodeT) (inner : List GId) (u : Usages), (∀ g, g ∈ inner → u.HasKey g) →
